@@ -9,13 +9,22 @@
 // inplace_vector histories;  4 to_chars / from_chars;  5 chrono;  6 algorithms;  7 inplace_string<40>
 // histories;  8 to_chars / from_chars for 32/64 bits and from_chars on short strings.  Table sizes are set by the compiler memory the constant evaluator needs (up to 250 KB per
 // history entry), not by run time.
+// Round 2: part 4 also to_string / stoi / stol / stoll / stoul / stoull / strtol / strtoll / strtoul / strtoull / atoi / atol /
+// atoll round trips (every 8-bit value and the 32/64-bit limits, bases 2, 10, 16, 36);  part 5 also calendar conversions and
+// arithmetic in windows around boundary days, duration / time_point rounding across ten unit pairs;  part 1 also wstring_view,
+// u8string_view, u16string_view and u32string_view searches (letters whose value order differs from their byte order);
+// part 6 also a second algorithm kernel (sorting variants, set operations, merges, searches, numeric algorithms) and assume_aligned.
 #include "mc.hpp"
 
 #include <etl/algorithm.hpp>
 #include <etl/array.hpp>
 #include <etl/charconv.hpp>
 #include <etl/chrono.hpp>
+#include <etl/functional.hpp>
+#include <etl/cstdlib.hpp>
 #include <etl/inplace_vector.hpp>
+#include <etl/memory.hpp>
+#include <etl/numeric.hpp>
 #include <etl/string.hpp>
 #include <etl/string_view.hpp>
 #include <etl/vector.hpp>
@@ -69,15 +78,15 @@ constexpr SStr nth_ab(std::size_t i)
 constexpr std::size_t count_ab(int maxLen) { return (std::size_t(1) << (maxLen + 1)) - 1; }
 inline std::string show_s(SStr const& s) { return mc::show_chars(s.s, s.s + s.len); }
 
-#if MC_PART == 1
-// ------------------------------------------------------------------------- string_view
-constexpr int sv_hay_len    = thorough_tables ? 5 : 4;
-constexpr int sv_needle_len = thorough_tables ? 3 : 2;
 struct SvIn {
     SStr hay;
     SStr needle;
     int pos; // 0..hay_len+1, then npos
 };
+#if MC_PART == 1
+// ------------------------------------------------------------------------- string_view
+constexpr int sv_hay_len    = thorough_tables ? 5 : 4;
+constexpr int sv_needle_len = thorough_tables ? 3 : 2;
 struct k_string_view {
     using In = SvIn;
     using R  = std::array<ll, 16>;
@@ -131,6 +140,91 @@ struct k_string_view {
     static std::string show(In const& a)
     {
         return "hay=" + show_s(a.hay) + " needle=" + show_s(a.needle) + " pos=" + (a.pos == int(NP) - 1 ? std::string("npos") : std::to_string(a.pos));
+    }
+    static bool nontrivial(In const& a) { return a.hay.len > 0 && a.needle.len > 0; }
+};
+#endif
+
+#if MC_PART == 1
+// -------------------------------------------------------- string_view, other character types
+// Letters: for 16/32-bit code units two values whose order by value (x < y) is the opposite of their
+// order by bytes in memory on a little-endian machine (0x0161 < 0x0240, but 61 01 > 40 02): a
+// run-time memcmp shortcut and the element-wise constant-evaluation path would disagree on them.
+template <typename C>
+constexpr C wide_letter(char ab)
+{
+    if constexpr (sizeof(C) == 1) {
+        return ab == 'a' ? C(0x61) : C(0xC3); // char8_t: ASCII and a lead byte >= 0x80
+    } else {
+        return ab == 'a' ? C(0x0161) : C(0x0240);
+    }
+}
+template <typename C>
+char const* cname()
+{
+    if constexpr (std::is_same_v<C, wchar_t>) { return "wchar_t"; }
+    if constexpr (std::is_same_v<C, char8_t>) { return "char8_t"; }
+    if constexpr (std::is_same_v<C, char16_t>) { return "char16_t"; }
+    if constexpr (std::is_same_v<C, char32_t>) { return "char32_t"; }
+    return "?";
+}
+constexpr int wsv_hay_len    = thorough_tables ? 4 : 3;
+constexpr int wsv_needle_len = 2;
+template <typename C>
+struct k_wide_string_view {
+    using In = SvIn;
+    using R  = std::array<ll, 16>;
+    static constexpr std::size_t NH = count_ab(wsv_hay_len);
+    static constexpr std::size_t NN = count_ab(wsv_needle_len);
+    static constexpr std::size_t NP = std::size_t(wsv_hay_len) + 3;
+    static constexpr std::size_t N  = NH * NN * NP;
+    static std::string subject() { return std::string("basic_string_view<") + cname<C>() + "> search/compare family"; }
+    static constexpr In in(std::size_t i)
+    {
+        In a{};
+        a.pos = int(i % NP);
+        i /= NP;
+        a.needle = nth_ab(i % NN);
+        a.hay    = nth_ab(i / NN);
+        return a;
+    }
+    static constexpr bool valid(In const&) { return true; }
+    static constexpr R call(In const& a)
+    {
+        using sv        = etl::basic_string_view<C>;
+        auto const npos = sv::npos;
+        C* hb = a.hay.len > 0 ? new C[std::size_t(a.hay.len)] : nullptr;
+        C* nb = a.needle.len > 0 ? new C[std::size_t(a.needle.len)] : nullptr;
+        for (int i = 0; i < a.hay.len; ++i) { hb[i] = wide_letter<C>(a.hay.s[i]); }
+        for (int i = 0; i < a.needle.len; ++i) { nb[i] = wide_letter<C>(a.needle.s[i]); }
+        sv const h = hb != nullptr ? sv{hb, std::size_t(a.hay.len)} : sv{};
+        sv const n = nb != nullptr ? sv{nb, std::size_t(a.needle.len)} : sv{};
+        auto const pos = a.pos == int(NP) - 1 ? npos : std::size_t(a.pos);
+        auto const fwd = pos == npos ? std::size_t(0) : pos;
+        auto const c   = wide_letter<C>(a.needle.len > 0 ? a.needle.s[0] : 'a');
+        auto const sub = fwd <= h.size() ? h.substr(fwd, std::size_t(a.needle.len)) : sv{};
+        auto const cmp = h.compare(n);
+        R const out{ll(h.find(n, fwd)), ll(h.rfind(n, pos)), ll(h.find_first_of(n, fwd)), ll(h.find_last_of(n, pos)),
+            ll(h.find_first_not_of(n, fwd)), ll(h.find_last_not_of(n, pos)), ll(h.find(c, fwd)), ll(h.rfind(c, pos)),
+            ll((cmp > 0) - (cmp < 0)), ll(h.starts_with(n)) + 2 * ll(h.ends_with(n)) + 4 * ll(h.contains(n)) + 8 * ll(h.starts_with(c)), ll(sub.size()),
+            ll(sub.empty() ? 0 : sub.front()), ll(h == n) + 2 * ll(h != n), ll(h < n) + 2 * ll(h <= n) + 4 * ll(h > n) + 8 * ll(h >= n),
+            ll(etl::char_traits<C>::compare(hb != nullptr ? hb : nb, nb != nullptr ? nb : hb, (hb != nullptr && nb != nullptr) ? std::size_t(a.hay.len < a.needle.len ? a.hay.len : a.needle.len) : 0) > 0),
+            ll(hb != nullptr && nb != nullptr ? etl::char_traits<C>::lt(hb[0], nb[0]) : false)};
+        delete[] hb;
+        delete[] nb;
+        return out;
+    }
+    static std::string cls(In const& a)
+    {
+        std::string s = a.hay.len == 0 ? "hay_empty" : "hay";
+        s += a.needle.len == 0 ? ",needle_empty" : a.needle.len > a.hay.len ? ",needle_longer" : ",needle";
+        s += a.pos == int(NP) - 1 ? ",pos_npos" : a.pos > a.hay.len ? ",pos_gt_size" : a.pos == a.hay.len ? ",pos_eq_size" : ",pos";
+        return s;
+    }
+    static std::string show(In const& a)
+    {
+        return "hay=" + show_s(a.hay) + " needle=" + show_s(a.needle) + " pos=" + (a.pos == int(NP) - 1 ? std::string("npos") : std::to_string(a.pos))
+             + " (a=" + std::to_string(unsigned(wide_letter<C>('a'))) + ", b=" + std::to_string(unsigned(wide_letter<C>('b'))) + ")";
     }
     static bool nontrivial(In const& a) { return a.hay.len > 0 && a.needle.len > 0; }
 };
@@ -504,6 +598,124 @@ struct k_from_chars {
 };
 #endif
 
+#if MC_PART == 4
+// ------------------------------------------- to_string / sto* / strto* / ato* round trips
+template <typename T>
+char const* tname_c()
+{
+    if constexpr (std::is_same_v<T, int>) { return "int"; }
+    if constexpr (std::is_same_v<T, long>) { return "long"; }
+    if constexpr (std::is_same_v<T, long long>) { return "long long"; }
+    if constexpr (std::is_same_v<T, unsigned>) { return "unsigned"; }
+    if constexpr (std::is_same_v<T, unsigned long>) { return "unsigned long"; }
+    if constexpr (std::is_same_v<T, unsigned long long>) { return "unsigned long long"; }
+    return "?";
+}
+/// every 8-bit value ([-128,255], the negative ones for signed types only) and the limits of T with neighbours
+template <typename T>
+constexpr auto intconv_values()
+{
+    using L = std::numeric_limits<T>;
+    std::array<T, 420> a{};
+    std::size_t n = 0;
+    for (int v = std::is_signed_v<T> ? -128 : 0; v <= 255; ++v) { a[n++] = static_cast<T>(v); }
+    for (T v : {L::min(), T(L::min() + 1), T(L::min() + 2), T(L::max() - 2), T(L::max() - 1), L::max(), T(L::max() / 2), T(L::max() / 2 + 1),
+             T(L::max() / 10), T(L::max() / 10 + 1), T(L::max() / 16), T(L::max() / 36), T(L::max() / 36 + 1)}) {
+        a[n++] = v;
+    }
+    if constexpr (sizeof(T) == 8) { // the 32-bit limits inside a 64-bit type
+        for (long long v : {2147483647LL, 2147483648LL, 4294967295LL, 4294967296LL}) {
+            a[n++] = static_cast<T>(v);
+            if constexpr (std::is_signed_v<T>) { a[n++] = static_cast<T>(-v); }
+        }
+    }
+    return std::pair{a, n};
+}
+constexpr int intconv_bases[4] = {2, 10, 16, 36};
+template <typename T>
+struct k_intconv {
+    using In = ConvIn<T>; // room unused
+    using R  = std::array<ll, 8>;
+    static constexpr auto vals     = intconv_values<T>();
+    static constexpr std::size_t N = vals.second * 4;
+    static std::string subject() { return std::string("to_string/sto*/strto*/ato* round trip (") + tname_c<T>() + ",base)"; }
+    static constexpr In in(std::size_t i) { return In{vals.first[i / 4], intconv_bases[i % 4], 0}; }
+    static constexpr bool valid(In const&) { return true; }
+    static constexpr R call(In const& a)
+    {
+        R out{};
+        char buf[72] = {}; // digits written by to_chars, then NUL
+        auto const res = etl::to_chars(buf, buf + 70, a.value, a.base);
+        auto const len = std::size_t(res.ptr - buf);
+        out[0]         = ll(res.ec == etl::errc{}) * 100 + ll(len);
+        char up[72]    = {}; // the same text with upper-case digits, preceded by blanks and (non-negative values) a plus sign
+        std::size_t u  = 0;
+        up[u++]        = ' ';
+        up[u++]        = '\t';
+        if (buf[0] != '-') { up[u++] = '+'; }
+        for (std::size_t i = 0; i < len; ++i) { up[u++] = (buf[i] >= 'a' && buf[i] <= 'z') ? char(buf[i] - 'a' + 'A') : buf[i]; }
+        char const* end  = nullptr;
+        char const* end2 = nullptr;
+        etl::size_t pos  = 99;
+        ll v1 = 0, v2 = 0, v3 = 0;
+        if constexpr (std::is_same_v<T, unsigned long long>) {
+            v1 = ll(etl::strtoull(buf, &end, a.base));
+            v2 = ll(etl::strtoull(up, &end2, a.base));
+            v3 = ll(etl::stoull(etl::string_view{buf, len}, &pos, a.base));
+        } else if constexpr (std::is_unsigned_v<T>) {
+            v1 = ll(etl::strtoul(buf, &end, a.base));
+            v2 = ll(etl::strtoul(up, &end2, a.base));
+            v3 = ll(etl::stoul(etl::string_view{buf, len}, &pos, a.base));
+        } else if constexpr (std::is_same_v<T, long long>) {
+            v1 = ll(etl::strtoll(buf, &end, a.base));
+            v2 = ll(etl::strtoll(up, &end2, a.base));
+            v3 = ll(etl::stoll(etl::string_view{buf, len}, &pos, a.base));
+        } else {
+            v1 = ll(etl::strtol(buf, &end, a.base));
+            v2 = ll(etl::strtol(up, &end2, a.base));
+            if constexpr (std::is_same_v<T, int>) {
+                v3 = ll(etl::stoi(etl::string_view{buf, len}, &pos, a.base));
+            } else {
+                v3 = ll(etl::stol(etl::string_view{buf, len}, &pos, a.base));
+            }
+        }
+        out[1] = v1;
+        out[2] = ll(end - buf) * 256 + ll(pos);
+        out[3] = v2;
+        out[4] = ll(end2 - up);
+        out[5] = v3;
+        if (a.base == 10) {
+            // exact-fit capacity: the longest value of T (digits10 + 1 digits and a sign) fills the string completely
+            auto const str = etl::to_string<std::size_t(std::numeric_limits<T>::digits10 + 1 + int(std::is_signed_v<T>))>(a.value);
+            ll h           = ll(str.size());
+            for (auto ch : str) { h = mix(h, ll(ch)); }
+            out[6] = h;
+            if constexpr (std::is_same_v<T, int>) {
+                out[7] = ll(etl::atoi(buf));
+                out[6] = mix(out[6], ll(etl::atoi(up)));
+            }
+            if constexpr (std::is_same_v<T, long>) {
+                out[7] = ll(etl::atol(buf));
+                out[6] = mix(out[6], ll(etl::atol(up)));
+            }
+            if constexpr (std::is_same_v<T, long long>) {
+                out[7] = ll(etl::atoll(buf));
+                out[6] = mix(out[6], ll(etl::atoll(up)));
+            }
+        }
+        return out;
+    }
+    static std::string cls(In const& a)
+    {
+        using L = std::numeric_limits<T>;
+        return std::string(a.value == L::max() ? "max" : (std::is_signed_v<T> && a.value == L::min()) ? "min" : a.value < 0 ? "negative" : a.value == 0 ? "zero" : "positive")
+             + ",base" + std::to_string(a.base);
+    }
+    static std::string show(In const& a) { return "value=" + show_val(a.value) + " base=" + std::to_string(a.base); }
+    static bool nontrivial(In const& a) { return a.value != 0; }
+};
+#endif
+
 #if MC_PART == 5
 // ------------------------------------------------------------------------------ chrono
 constexpr int day_span = thorough_tables ? 9000 : 4000;
@@ -552,11 +764,216 @@ struct k_duration {
     static std::string show(In const& v) { return "ms=" + std::to_string(v); }
     static bool nontrivial(In const& v) { return v != 0; }
 };
+
+// ---- round 2: windows around boundary days, arithmetic, more unit pairs ----------------
+constexpr ll days_from_civil_ref(int y, unsigned m, unsigned d) // harness-side closed form, used only to place the windows
+{
+    y -= m <= 2;
+    ll const era       = (y >= 0 ? y : y - 399) / 400;
+    unsigned const yoe = static_cast<unsigned>(y - era * 400);
+    unsigned const doy = (153 * (m > 2 ? m - 3 : m + 9) + 2) / 5 + d - 1;
+    unsigned const doe = yoe * 365 + yoe / 4 - yoe / 100 + doy;
+    return era * 146097 + ll(doe) - 719468;
+}
+constexpr int boundary_years[] = {-32767, -32766, -4800, -401, -400, -399, -101, -100, -1, 0, 1, 4, 100, 400, 1582, 1600, 1700, 1800, 1900, 1901,
+    1969, 1970, 1972, 1999, 2000, 2001, 2038, 2100, 2400, 9999, 10000, 32766, 32767};
+constexpr int window = thorough_tables ? 3 : 2;
+constexpr auto boundary_days = [] {
+    constexpr std::size_t ny = sizeof(boundary_years) / sizeof(int);
+    std::array<int, (ny * 5 + 21) * 7> a{};
+    std::size_t n = 0;
+    auto add      = [&](ll d) {
+        for (int w = -window; w <= window; ++w) { a[n++] = int(d + w); }
+    };
+    for (int y : boundary_years) {
+        add(days_from_civil_ref(y, 1, 1));
+        add(days_from_civil_ref(y, 2, 28));
+        add(days_from_civil_ref(y, 3, 1));
+        add(days_from_civil_ref(y, 7, 31));
+        add(days_from_civil_ref(y, 12, 31));
+    }
+    for (int k = -10; k <= 10; ++k) { add(ll(k) * 146097 - 719468); } // first day of every 400-year era
+    return std::pair{a, n};
+}();
+struct k_civil_boundary {
+    using In = int; // days since 1970-01-01
+    using R  = std::array<ll, 12>;
+    static constexpr std::size_t N = boundary_days.second;
+    static constexpr ll first_day  = days_from_civil_ref(-32767, 1, 1);
+    static constexpr ll last_day   = days_from_civil_ref(32767, 12, 31);
+    static std::string subject() { return "calendar conversions and arithmetic around boundary days"; }
+    static constexpr In in(std::size_t i) { return boundary_days.first[i]; }
+    static constexpr bool valid(In const& d) { return d >= first_day && d <= last_day; }
+    static constexpr R call(In const& d)
+    {
+        namespace ch = etl::chrono;
+        auto const sd  = ch::sys_days{ch::days{d}};
+        auto const ymd = ch::year_month_day{sd};
+        auto const wd  = ch::weekday{sd};
+        auto const rt  = ch::sys_days{ymd};
+        auto const ymdl = ch::year_month_day_last{ymd.year(), ch::month_day_last{ymd.month()}};
+        auto const ld   = ch::local_days{ymd};
+        R out{ll(int(ymd.year())), ll(unsigned(ymd.month())) * 100 + ll(unsigned(ymd.day())), ll(wd.c_encoding()) * 10 + ll(wd.iso_encoding()),
+            ll(rt.time_since_epoch().count()), ll(ymd.ok()) + 2 * ll(ymd.year().is_leap()) + 4 * ll(ymdl.ok()), ll(unsigned(ymdl.day())),
+            ll(ch::sys_days{ch::year_month_day{ymdl}}.time_since_epoch().count()) /* year_month_day_last::operator sys_days is declared but not defined: API gap */,
+            ll(ld.time_since_epoch().count()), 0, 0, 0, 0};
+        // arithmetic stays inside the year range
+        int const y = int(ymd.year());
+        if (y > -32000 && y < 32000) {
+            ll h = 0;
+            for (int dm : {-25, -13, -12, -11, -1, 0, 1, 11, 12, 13, 25}) {
+                auto const a  = ymd + ch::months{dm};
+                auto const b  = ymd - ch::months{dm};
+                auto const ym = ch::year_month{ymd.year(), ymd.month()} + ch::months{dm};
+                h = mix(h, ll(int(a.year())) * 10000 + ll(unsigned(a.month())) * 100 + ll(unsigned(a.day())));
+                h = mix(h, ll(int(b.year())) * 10000 + ll(unsigned(b.month())) * 100 + ll(unsigned(b.day())));
+                h = mix(h, ll(int(ym.year())) * 100 + ll(unsigned(ym.month())) + 1000000 * ll(a.ok()) + 2000000 * ll(ym.ok()));
+                if (a.year().ok() && a.month().ok()) { h = mix(h, ll(ch::sys_days{a}.time_since_epoch().count())); } // specified also for a day past the month end
+            }
+            out[8] = h;
+            h      = 0;
+            for (int dy : {-400, -100, -4, -1, 1, 4, 100, 400}) {
+                auto const a = ymd + ch::years{dy};
+                auto const b = ch::year_month{ymd.year(), ymd.month()} - ch::years{dy};
+                h = mix(h, ll(int(a.year())) * 10000 + ll(unsigned(a.month())) * 100 + ll(unsigned(a.day())) + 10000000000LL * ll(a.ok()));
+                h = mix(h, ll(int(b.year())) * 100 + ll(unsigned(b.month())));
+            }
+            out[9] = h;
+        }
+        ll h = 0;
+        for (int k = -15; k <= 15; ++k) {
+            auto const w2 = wd + ch::days{k};
+            auto const w3 = wd - ch::days{k};
+            h = mix(h, ll(w2.c_encoding()) * 100 + ll(w3.c_encoding()) * 10 + ll((w2 - wd).count()));
+        }
+        out[10] = h;
+        auto const next = ch::year_month_day{ch::sys_days{ch::days{d + (d < last_day ? 1 : 0)}}};
+        out[11]         = ll(next == ymd) + 2 * ll(unsigned(next.day()) == 1) + 4 * ll(ch::sys_days{next} > sd) + 8 * ll(wd == ch::weekday{ch::sys_days{next}});
+        return out;
+    }
+    static std::string cls(In const& d)
+    {
+        return std::string(d < -719468 ? "year_neg" : d < 0 ? "before_epoch" : "epoch_or_later") + ((d + 719468) % 146097 == 0 ? "+era_start" : "");
+    }
+    static std::string show(In const& d) { return "days=" + std::to_string(d); }
+    static bool nontrivial(In const& d) { return d != 0; }
+};
+
+constexpr auto unit_counts = [] {
+    std::array<long long, 301 + 2 * 40> a{};
+    std::size_t n = 0;
+    for (int i = -150; i <= 150; ++i) { a[n++] = i; }
+    for (long long v : {499LL, 500LL, 501LL, 999LL, 1000LL, 1001LL, 1499LL, 1500LL, 1501LL, 1799LL, 1800LL, 1801LL, 3599LL, 3600LL, 3601LL, 5400LL, 43199LL,
+             43200LL, 43201LL, 86399LL, 86400LL, 86401LL, 129600LL, 302400LL, 604800LL, 999999LL, 1000000LL, 1000001LL, 1500000LL, 2500000LL, 999999999LL,
+             1000000000LL, 1000000001LL, 1500000000LL, 2147483647LL, 2147483648LL, 4294967296LL, 100000000000LL, 100000000500LL, 100000000501LL}) {
+        a[n++] = v;
+        a[n++] = -v;
+    }
+    return a;
+}();
+template <typename From, typename To, int Id>
+struct k_duration_pair {
+    using In = long long;
+    using R  = std::array<ll, 10>;
+    static constexpr std::size_t N = unit_counts.size();
+    static std::string subject()
+    {
+        return "duration_cast/floor/ceil/round pair #" + std::to_string(Id) + " (period " + std::to_string(From::period::num) + "/" + std::to_string(From::period::den)
+             + " -> " + std::to_string(To::period::num) + "/" + std::to_string(To::period::den) + ")";
+    }
+    static constexpr In in(std::size_t i) { return unit_counts[i]; }
+    // Domain: floor / ceil / round compare and subtract in the common type of the two durations, abs negates: a count
+    // within a factor 4 of the limits of either rep may overflow there (as it would in std::chrono), so it is left out;
+    // the conversion factor times the count stays inside 63 bits.
+    static constexpr bool valid(In const& v)
+    {
+        using CF                 = etl::ratio_divide<typename From::period, typename To::period>;
+        long double const mag    = static_cast<long double>(v < 0 ? -v : v);
+        long double const scaled = mag * static_cast<long double>(CF::num);
+        if constexpr (std::is_integral_v<typename From::rep>) {
+            if (mag > static_cast<long double>(std::numeric_limits<typename From::rep>::max() / 4)) { return false; }
+        }
+        if constexpr (std::is_integral_v<typename To::rep>) {
+            if (scaled / static_cast<long double>(CF::den) + 1 > static_cast<long double>(std::numeric_limits<typename To::rep>::max() / 4)) { return false; }
+        }
+        return scaled < 2.0e18L;
+    }
+    static constexpr ll cnt(auto d)
+    {
+        if constexpr (std::is_floating_point_v<typename decltype(d)::rep>) {
+            return std::bit_cast<ll>(static_cast<double>(d.count()));
+        } else {
+            return ll(d.count());
+        }
+    }
+    static constexpr R call(In const& v)
+    {
+        namespace ch = etl::chrono;
+        From const d{static_cast<typename From::rep>(v)};
+        R out{};
+        out[0] = cnt(ch::duration_cast<To>(d));
+        out[1] = cnt(ch::floor<To>(d));
+        out[2] = cnt(ch::ceil<To>(d));
+        if constexpr (!std::is_floating_point_v<typename To::rep>) { out[3] = cnt(ch::round<To>(d)); }
+        out[4] = cnt(ch::abs(d));
+        out[5] = cnt(ch::duration_cast<From>(ch::duration_cast<To>(d)));
+        using tp_from = ch::time_point<ch::system_clock, From>;
+        tp_from const tp{d};
+        out[6] = cnt(ch::time_point_cast<To>(tp).time_since_epoch());
+        out[7] = cnt(ch::floor<To>(tp).time_since_epoch());
+        out[8] = cnt(ch::ceil<To>(tp).time_since_epoch());
+        if constexpr (!std::is_floating_point_v<typename To::rep>) { out[9] = cnt(ch::round<To>(tp).time_since_epoch()); }
+        return out;
+    }
+    static std::string cls(In const& v)
+    {
+        using CF = etl::ratio_divide<typename From::period, typename To::period>;
+        if (v == 0) { return "zero"; }
+        std::string s = v < 0 ? "negative" : "positive";
+        if (CF::den > 1) {
+            auto const r = (v < 0 ? -v : v) * CF::num % CF::den;
+            s += r == 0 ? ",exact" : 2 * r == CF::den ? ",tie" : ",inexact";
+        }
+        return s;
+    }
+    static std::string show(In const& v) { return "count=" + std::to_string(v); }
+    static bool nontrivial(In const& v) { return v != 0; }
+};
 #endif
 
 #if MC_PART == 6
 // -------------------------------------------------------------------------- algorithms
 constexpr int alg_len = thorough_tables ? 6 : 5;
+/// the input range lives in an allocation of exactly n elements: during constant evaluation any read or
+/// write outside [first, last) is rejected by the compiler (an empty range is [nullptr, nullptr))
+struct ExactBuf {
+    int* p{nullptr};
+    std::size_t n{0};
+    constexpr ExactBuf(int const* src, std::size_t count)
+        : p{count > 0 ? new int[count] : nullptr}
+        , n{count}
+    {
+        for (std::size_t i = 0; i < n; ++i) { p[i] = src[i]; }
+    }
+    constexpr ExactBuf(ExactBuf&& o) noexcept
+        : p{o.p}
+        , n{o.n}
+    {
+        o.p = nullptr;
+        o.n = 0;
+    }
+    constexpr auto operator=(ExactBuf&& o) noexcept -> ExactBuf&
+    {
+        int* const t = p;
+        p            = o.p;
+        n            = o.n;
+        o.p          = t;
+        return *this;
+    }
+    constexpr ~ExactBuf() { delete[] p; }
+    [[nodiscard]] constexpr auto begin() const -> int* { return p; }
+    [[nodiscard]] constexpr auto end() const -> int* { return p + n; }
+};
 struct AlgIn {
     int a[8];
     int n;
@@ -601,11 +1018,7 @@ struct k_algorithms {
         auto const n   = std::size_t(a.n);
         auto const mid = std::size_t(a.k);
         int const val  = a.k % 3;
-        auto fresh     = [&] {
-            etl::array<int, 8> x{};
-            for (std::size_t i = 0; i < 8; ++i) { x[i] = a.a[i]; }
-            return x;
-        };
+        auto fresh     = [&] { return ExactBuf{a.a, n}; }; // round 2: exact-size input (was an 8-element array)
         {
             auto x = fresh();
             etl::sort(x.begin(), x.begin() + n);
@@ -671,6 +1084,235 @@ struct k_algorithms {
 };
 #endif
 
+#if MC_PART == 6
+// ------------------------------------------------------------- algorithms, second kernel
+// The algorithms the first kernel (part 6) does not call.  Same table: every sequence of length
+// <= alg2_len over {0,1,2} x every split point k.  Preconditions are established by the harness
+// (sorted inputs for the set operations / merges / equal_range, a partitioned range for
+// partition_point); every output range is a separate zero-filled array of 16 elements.
+constexpr int alg2_len = thorough_tables ? 5 : 4;
+struct Alg2In {
+    int a[8];
+    int n;
+    int k;
+};
+struct k_algorithms2 {
+    using In = Alg2In;
+    using R  = std::array<ll, 48>;
+    static constexpr std::size_t NS = (ipow_sz(3, alg2_len + 1) - 1) / 2;
+    static constexpr std::size_t NK = std::size_t(alg2_len) + 1;
+    static constexpr std::size_t N  = NS * NK;
+    static std::string subject() { return "algorithms on short sequences (second kernel)"; }
+    static constexpr In in(std::size_t i)
+    {
+        In a{};
+        a.k = int(i % NK);
+        i /= NK;
+        std::size_t block = 1;
+        while (i >= block) {
+            i -= block;
+            block *= 3;
+            ++a.n;
+        }
+        for (int p = a.n - 1; p >= 0; --p) {
+            a.a[p] = int(i % 3);
+            i /= 3;
+        }
+        return a;
+    }
+    static constexpr bool valid(In const& a) { return a.k <= a.n; }
+    template <typename It>
+    static constexpr ll fold(It f, It l)
+    {
+        ll h = 7;
+        for (; f != l; ++f) { h = mix(h, ll(*f) + 1); }
+        return h;
+    }
+    using Arr = etl::array<int, 16>;
+    static constexpr R call(In const& a)
+    {
+        R out{};
+        auto const n   = std::size_t(a.n);
+        auto const mid = std::size_t(a.k);
+        int const val  = a.k % 3;
+        auto fresh     = [&] { return ExactBuf{a.a, n}; };
+        auto sorted_halves = [&] { // [0,mid) and [mid,n) each sorted
+            auto x = fresh();
+            etl::insertion_sort(x.begin(), x.begin() + mid);
+            etl::insertion_sort(x.begin() + mid, x.begin() + n);
+            return x;
+        };
+        auto less_val = [&](int v) { return v < val; };
+        std::size_t o = 0;
+        { // sorting variants
+            auto x = fresh();
+            etl::bubble_sort(x.begin(), x.begin() + n);
+            out[o++] = fold(x.begin(), x.begin() + n);
+            x        = fresh();
+            etl::exchange_sort(x.begin(), x.begin() + n);
+            out[o++] = fold(x.begin(), x.begin() + n);
+            x        = fresh();
+            etl::gnome_sort(x.begin(), x.begin() + n, etl::greater<>{});
+            out[o++] = fold(x.begin(), x.begin() + n);
+            x        = fresh();
+            etl::insertion_sort(x.begin(), x.begin() + n);
+            out[o++] = fold(x.begin(), x.begin() + n);
+            x        = fresh();
+            etl::merge_sort(x.begin(), x.begin() + n);
+            out[o++] = fold(x.begin(), x.begin() + n);
+            x        = fresh();
+            etl::partial_sort(x.begin(), x.begin() + mid, x.begin() + n);
+            out[o++] = fold(x.begin(), x.begin() + mid); // the order of [mid, n) is unspecified, but equal in both executions:
+            out[o++] = fold(x.begin() + mid, x.begin() + n);
+            x        = fresh();
+            if (mid < n) {
+                etl::nth_element(x.begin(), x.begin() + mid, x.begin() + n);
+                out[o] = fold(x.begin(), x.begin() + n);
+            }
+            ++o;
+            x        = fresh();
+            out[o++] = ll(etl::is_sorted_until(x.begin(), x.begin() + n) - x.begin());
+        }
+        { // merges and set operations on the two sorted halves
+            auto x = sorted_halves();
+            Arr y{};
+            auto e   = etl::merge(x.begin(), x.begin() + mid, x.begin() + mid, x.begin() + n, y.begin());
+            out[o++] = mix(fold(y.begin(), e), ll(e - y.begin()));
+            y        = Arr{};
+            e        = etl::set_union(x.begin(), x.begin() + mid, x.begin() + mid, x.begin() + n, y.begin());
+            out[o++] = fold(y.begin(), e);
+            y        = Arr{};
+            e        = etl::set_intersection(x.begin(), x.begin() + mid, x.begin() + mid, x.begin() + n, y.begin());
+            out[o++] = fold(y.begin(), e);
+            y        = Arr{};
+            e        = etl::set_difference(x.begin(), x.begin() + mid, x.begin() + mid, x.begin() + n, y.begin());
+            out[o++] = fold(y.begin(), e);
+            y        = Arr{};
+            e        = etl::set_symmetric_difference(x.begin(), x.begin() + mid, x.begin() + mid, x.begin() + n, y.begin());
+            out[o++] = fold(y.begin(), e);
+            out[o++] = ll(etl::includes(x.begin(), x.begin() + mid, x.begin() + mid, x.begin() + n)) + 2 * ll(etl::includes(x.begin() + mid, x.begin() + n, x.begin(), x.begin() + mid));
+            etl::inplace_merge(x.begin(), x.begin() + mid, x.begin() + n);
+            out[o++] = fold(x.begin(), x.begin() + n);
+            auto const er = etl::equal_range(x.begin(), x.begin() + n, val); // x is sorted now
+            out[o++]      = ll(er.first - x.begin()) * 16 + ll(er.second - x.begin());
+        }
+        { // searches
+            auto x   = fresh();
+            out[o++] = ll(etl::search(x.begin(), x.begin() + n, x.begin() + mid, x.begin() + n) - x.begin()) * 16
+                     + ll(etl::find_end(x.begin(), x.begin() + n, x.begin(), x.begin() + mid) - x.begin());
+            out[o++] = ll(etl::search_n(x.begin(), x.begin() + n, 2, val) - x.begin()) * 16 + ll(etl::search_n(x.begin(), x.begin() + n, 0, val) - x.begin());
+            out[o++] = ll(etl::find_first_of(x.begin(), x.begin() + mid, x.begin() + mid, x.begin() + n) - x.begin());
+            auto const mm  = etl::mismatch(x.begin(), x.begin() + mid, x.begin() + mid, x.begin() + n);
+            auto const mm3 = etl::mismatch(x.begin(), x.begin() + (mid <= n - mid ? mid : n - mid), x.begin() + mid);
+            out[o++]       = ll(mm.first - x.begin()) * 256 + ll(mm.second - x.begin()) * 16 + ll(mm3.first - x.begin());
+            out[o++] = ll(etl::is_permutation(x.begin(), x.begin() + mid, x.begin() + mid, x.begin() + n)) + 2 * ll(etl::is_permutation(x.begin(), x.begin() + n, x.begin()));
+            out[o++] = ll(etl::find_if(x.begin(), x.begin() + n, less_val) - x.begin()) * 16 + ll(etl::find_if_not(x.begin(), x.begin() + n, less_val) - x.begin());
+            out[o++] = ll(etl::all_of(x.begin(), x.begin() + n, less_val)) + 2 * ll(etl::any_of(x.begin(), x.begin() + n, less_val)) + 4 * ll(etl::none_of(x.begin(), x.begin() + n, less_val))
+                     + 8 * ll(etl::count_if(x.begin(), x.begin() + n, less_val));
+            auto const me = etl::minmax_element(x.begin(), x.begin() + n);
+            out[o++]      = ll(me.first - x.begin()) * 16 + ll(me.second - x.begin());
+        }
+        { // partitions
+            auto x   = fresh();
+            auto p   = etl::stable_partition(x.begin(), x.begin() + n, less_val);
+            out[o++] = mix(fold(x.begin(), x.begin() + n), ll(p - x.begin()));
+            out[o++] = ll(etl::is_partitioned(x.begin(), x.begin() + n, less_val)) + 2 * ll(etl::partition_point(x.begin(), x.begin() + n, less_val) - x.begin());
+            x        = fresh();
+            Arr t{};
+            Arr f{};
+            auto const pc = etl::partition_copy(x.begin(), x.begin() + n, t.begin(), f.begin(), less_val);
+            out[o++]      = mix(fold(t.begin(), pc.first), fold(f.begin(), pc.second));
+            out[o++]      = ll(etl::is_partitioned(x.begin(), x.begin() + n, less_val));
+        }
+        { // shifting, rotating, copying, replacing
+            auto x   = fresh();
+            auto e   = etl::shift_left(x.begin(), x.begin() + n, std::ptrdiff_t(mid));
+            out[o++] = mix(fold(x.begin(), e), ll(e - x.begin())); // [e, n) is unspecified
+            x        = fresh();
+            auto b   = etl::shift_right(x.begin(), x.begin() + n, std::ptrdiff_t(mid));
+            out[o++] = mix(fold(b, x.begin() + n), ll(b - x.begin()));
+            x        = fresh();
+            Arr y{};
+            auto e2  = etl::rotate_copy(x.begin(), x.begin() + mid, x.begin() + n, y.begin());
+            out[o++] = fold(y.begin(), e2);
+            y        = Arr{};
+            e2       = etl::unique_copy(x.begin(), x.begin() + n, y.begin());
+            out[o++] = fold(y.begin(), e2);
+            y        = Arr{};
+            e2       = etl::remove_copy(x.begin(), x.begin() + n, y.begin(), val);
+            auto e3  = etl::remove_copy_if(x.begin(), x.begin() + n, e2, less_val);
+            out[o++] = fold(y.begin(), e3);
+            auto e4  = etl::remove_if(x.begin(), x.begin() + n, less_val);
+            out[o++] = fold(x.begin(), e4);
+            x        = fresh();
+            etl::replace(x.begin(), x.begin() + n, val, 9);
+            etl::replace_if(x.begin(), x.begin() + n, less_val, 8);
+            out[o++] = fold(x.begin(), x.begin() + n);
+            x        = fresh();
+            auto half = mid <= n - mid ? mid : n - mid;
+            etl::swap_ranges(x.begin(), x.begin() + half, x.begin() + mid);
+            if (n >= 2) { etl::iter_swap(x.begin(), x.begin() + (n - 1)); }
+            out[o++] = fold(x.begin(), x.begin() + n);
+            y        = Arr{};
+            auto c1  = etl::copy_n(x.begin(), mid, y.begin());
+            auto c2  = etl::copy_backward(x.begin(), x.begin() + n, y.begin() + 16);
+            auto c3  = etl::move(x.begin() + mid, x.begin() + n, c1);
+            out[o++] = mix(fold(y.begin(), y.end()), ll(c1 - y.begin()) * 256 + ll(c2 - y.begin()) * 16 + ll(c3 - y.begin()));
+            y        = Arr{};
+            auto c4  = etl::move_backward(x.begin(), x.begin() + mid, y.begin() + 8);
+            auto c5  = etl::fill_n(y.begin() + 8, mid, 5);
+            out[o++] = mix(fold(y.begin(), y.end()), ll(c4 - y.begin()) * 16 + ll(c5 - y.begin()));
+        }
+        { // generators and numeric algorithms
+            auto x = fresh();
+            Arr y{};
+            int g   = 0;
+            auto e  = etl::generate_n(y.begin(), n, [&] { return g += 3; });
+            etl::iota(e, e + mid, 40);
+            etl::generate(y.begin() + 12, y.end(), [&] { return --g; });
+            out[o++] = fold(y.begin(), y.end());
+            y        = Arr{};
+            auto t1  = etl::transform(x.begin(), x.begin() + n, y.begin(), [](int v) { return v * 2 + 1; });
+            auto t2  = etl::transform(x.begin(), x.begin() + mid, x.begin() + (n - mid), t1, [](int u, int v) { return u * 3 + v; });
+            out[o++] = fold(y.begin(), t2);
+            ll sum   = 0;
+            etl::for_each(x.begin(), x.begin() + n, [&](int v) { sum = sum * 3 + v; });
+            auto fe  = etl::for_each_n(x.begin(), mid, [&](int& v) { v += 1; });
+            out[o++] = sum * 16 + ll(fe - x.begin());
+            out[o++] = ll(etl::accumulate(x.begin(), x.begin() + n, 1)) * 10000 + ll(etl::accumulate(x.begin(), x.begin() + n, 1, [](int u, int v) { return u * 2 + v; }))
+                     + 1000000 * ll(etl::reduce(x.begin(), x.begin() + n, 2)) + 100000000LL * ll(etl::reduce(x.begin(), x.begin() + n));
+            out[o++] = ll(etl::inner_product(x.begin(), x.begin() + mid, x.begin() + (n - mid), 1)) * 1000
+                     + ll(etl::transform_reduce(x.begin(), x.begin() + mid, x.begin() + (n - mid), 2));
+            y        = Arr{};
+            auto p1  = etl::partial_sum(x.begin(), x.begin() + n, y.begin());
+            auto p2  = etl::adjacent_difference(x.begin(), x.begin() + n, p1);
+            out[o++] = fold(y.begin(), p2);
+            // clamp / min / max / minmax return references to their arguments: every argument is a named object
+            int const in  = int(n);
+            int const im  = int(mid);
+            int const hi  = val + 2;
+            auto const mmx = etl::minmax(val, im);
+            out[o++]       = ll(etl::clamp(in, val, hi)) * 1000 + ll(etl::min(val, im)) * 100 + ll(etl::max(val, im)) * 10 + ll(mmx.first) + 3 * ll(mmx.second);
+            // assume_aligned: run time goes through __builtin_assume_aligned, constant evaluation returns the pointer itself
+            alignas(16) int al[4] = {val, 1, 2, 3};
+            out[o++]              = ll(etl::assume_aligned<16>(al) - al) + ll(*etl::assume_aligned<alignof(int)>(al + 1)) * 10 + ll(*etl::assume_aligned<16>(al)) * 100;
+        }
+        return out;
+    }
+    static std::string cls(In const& a) { return a.n == 0 ? "empty" : a.k == 0 ? "k_zero" : a.k == a.n ? "k_eq_n" : "general"; }
+    static std::string show(In const& a)
+    {
+        std::string s = "seq=[";
+        for (int i = 0; i < a.n; ++i) { s += char('0' + a.a[i]); }
+        return s + "] k=" + std::to_string(a.k);
+    }
+    static bool nontrivial(In const& a) { return a.n >= 2; }
+};
+#endif
+
+#if defined(C13_DIAG) && MC_PART == 6
+constexpr auto diag = k_algorithms2::call(k_algorithms2::in(C13_DIAG)); // development aid: shows the compiler's reason
+#endif
 } // namespace
 
 int main(int argc, char** argv)
@@ -679,6 +1321,7 @@ int main(int argc, char** argv)
     std::vector<std::string> const both{"quick", "thorough"};
 #if MC_PART == 1
     m.job("string_view", both, run_kernel<k_string_view>);
+    m.job("string_view-wide", both, run_all<k_wide_string_view<wchar_t>, k_wide_string_view<char8_t>, k_wide_string_view<char16_t>, k_wide_string_view<char32_t>>);
 #elif MC_PART == 2
     m.job("inplace_string-7", both, run_kernel<k_inplace_string<7>>);
 #elif MC_PART == 7
@@ -688,6 +1331,8 @@ int main(int argc, char** argv)
     m.job("inplace_vector", both, run_kernel<k_inplace_vector>);
 #elif MC_PART == 4
     m.job("charconv-8", both, run_all<k_charconv<i8>, k_charconv<u8>>);
+    m.job("intconv-signed", both, run_all<k_intconv<int>, k_intconv<long>, k_intconv<long long>>);
+    m.job("intconv-unsigned", both, run_all<k_intconv<unsigned>, k_intconv<unsigned long>, k_intconv<unsigned long long>>);
 #elif MC_PART == 8
     m.job("charconv-32", both, run_all<k_charconv<i32>, k_charconv<u32>>);
     m.job("charconv-64", both, run_all<k_charconv<i64>, k_charconv<u64>>);
@@ -695,8 +1340,19 @@ int main(int argc, char** argv)
 #elif MC_PART == 5
     m.job("chrono-civil", both, run_kernel<k_civil>);
     m.job("chrono-duration", both, run_kernel<k_duration>);
+    m.job("chrono-boundary-days", both, run_kernel<k_civil_boundary>);
+    {
+        namespace ch = etl::chrono;
+        m.job("chrono-unit-pairs", both, run_all<k_duration_pair<ch::nanoseconds, ch::microseconds, 1>, k_duration_pair<ch::seconds, ch::minutes, 2>,
+            k_duration_pair<ch::hours, ch::days, 3>, k_duration_pair<ch::minutes, ch::seconds, 4>,
+            k_duration_pair<ch::duration<int, etl::ratio<1, 3>>, ch::milliseconds, 5>,
+            k_duration_pair<ch::duration<long, etl::ratio<7, 3>>, ch::duration<long, etl::ratio<5, 2>>, 6>,
+            k_duration_pair<ch::duration<double, etl::ratio<1, 1000>>, ch::seconds, 7>, k_duration_pair<ch::seconds, ch::duration<double, etl::ratio<60>>, 8>,
+            k_duration_pair<ch::days, ch::weeks, 9>, k_duration_pair<ch::duration<short, etl::ratio<1, 1000>>, ch::duration<signed char, etl::ratio<1>>, 10>>);
+    }
 #else
     m.job("algorithms", both, run_kernel<k_algorithms>);
+    m.job("algorithms2", both, run_kernel<k_algorithms2>);
 #endif
     return m.run();
 }
